@@ -188,6 +188,7 @@ let rec parse_goal (e : sexp) : goal =
   | L (A "for" :: A x :: coll :: cs) -> GFor (intern x, parse_term coll, parse_body cs)
   | L (A "project" :: L xs :: gs) -> GProject (List.map (fun x -> intern (atom x)) xs, List.map parse_goal gs)
   | L [A "probe"; A tag] -> GProbe (intern ("probe:" ^ tag))
+  | L [A "sq"; u; v] -> GSq (parse_term u, parse_term v)
   | _ -> failwith "bad goal"
 and parse_body (cs : sexp list) : goal list list =
   List.map (fun c -> match c with
